@@ -100,6 +100,10 @@ def trim_job(n, renumber=True, form='dense', maxcount=None):
         A0 = A.copy()
         if form == 'dense':
             arg = A
+        elif form == 'dense-F':              # column-major dense input (np.asfortranarray, a transposed view, pandas .values)
+            A = A.T.copy().T
+            A0 = A.copy()
+            arg = A
         elif form == 'coo':
             arg = stubs.SymCOO(A)
         elif form in ('csr', 'csc', 'lil', 'dok', 'dia', 'bsr'):
@@ -111,7 +115,7 @@ def trim_job(n, renumber=True, form='dense', maxcount=None):
         try:
             mapping, trimmed = tm.trim_disconnected(arg, threshold=thr, renumber_states=renumber)
             type_ok = (type(trimmed) is type(arg))
-            td = trimmed.toarray() if form != 'dense' else trimmed
+            td = trimmed.toarray() if not form.startswith('dense') else trimmed
             tl = [[_raw(td)[i, j] for j in range(td.shape[1])] for i in range(td.shape[0])]
             K = sorted(int(v) for v in mapping.to_original.values())
             eq_self = (mapping == tm.TrimMapping([(o, t) for t, o in mapping.to_original.items()]))
@@ -129,6 +133,8 @@ def trim_job(n, renumber=True, form='dense', maxcount=None):
                 out['inputs']['stored_entries'] = [list(t) for t in ev_]
                 argc = scipy.sparse.coo_matrix((np.array([t[0] for t in ev_]), (np.array([t[1] for t in ev_]), np.array([t[2] for t in ev_]))),
                                                shape=(n, n))
+            elif form == 'dense-F':
+                argc = np.asfortranarray(a)
             elif form in ('csr', 'csc', 'lil', 'dok', 'dia', 'bsr'):
                 argc = getattr(scipy.sparse, form + '_matrix')(a)
             else:
@@ -137,7 +143,7 @@ def trim_job(n, renumber=True, form='dense', maxcount=None):
                 try:
                     m2, t2 = tm.trim_disconnected(argc, threshold=tv, renumber_states=renumber)
                     tok = type(t2) is type(argc)
-                    t2d = np.asarray(t2.toarray() if form != 'dense' else t2).tolist()
+                    t2d = np.asarray(t2.toarray() if not form.startswith('dense') else t2).tolist()
                 except Exception as e:
                     out.update(exception=repr(e), out=None, violated=['raises ' + type(e).__name__],
                                signature='exception:' + type(e).__name__)
@@ -147,7 +153,7 @@ def trim_job(n, renumber=True, form='dense', maxcount=None):
             bad = run_oracle(oracle_trim(n, cv, tv, K2, t2d, m2.to_original, m2.to_mapped, renumber, False))
             if not tok:
                 bad.append('container-type-changed')
-            if form == 'dense' and argc.tolist() != cv:
+            if form.startswith('dense') and argc.tolist() != cv:
                 bad.append('caller-matrix-modified')
             out['violated'] = bad
             out['skip_compare'] = True      # component numbering / ties are unspecified; the real output is judged by the oracle
@@ -168,7 +174,7 @@ def jobs(tier):
     q = tier == 'quick'
     for n in ((1, 2, 3) if q else (1, 2, 3, 4, 5)):
         for ren in (True, False):
-            for form in ('dense', 'coo') + (('coo-dup',) if 2 <= n <= 3 else ()) + (('csr', 'csc', 'lil', 'dok', 'dia', 'bsr') if n == 2 or (n == 3 and not q) else ()):
+            for form in ('dense', 'dense-F', 'coo') + (('coo-dup',) if 2 <= n <= 3 else ()) + (('csr', 'csc', 'lil', 'dok', 'dia', 'bsr') if n == 2 or (n == 3 and not q) else ()):
                 J.append(dict(module='harness.C11', func='trim_job', name='trim[n=%d,renumber=%s,%s]' % (n, ren, form),
                               kwargs=dict(n=n, renumber=ren, form=form), sig_prefix='trim_disconnected',
                               deadline_s=280 if q else 1700))
